@@ -7,9 +7,12 @@
   conclusion `…Block … coords = some s` says the block the operation's function returns for that
   coordinate has exactly this shape (nothing is broadcast or truncated by the write).
 
-  Two clauses are false for the unchanged code and are kept as `def … : Prop` with a `_partial` theorem
-  under an explicit extra hypothesis and a `_fails` theorem from a concrete witness:
-  stack (operands chunked differently) and qr (a row chunk shorter than the number of columns).
+  The code was repaired (`fix:` commits f3856f5 stack, 19968d0 qr, 5fff6ae scan): the model follows the repaired
+  code, the former `_partial` theorems for qr and the scan level are now stated for every accepted input, and the
+  former counterexamples are kept as theorems about the OLD variants (`…_old_variant_fails`).
+  One clause is still false: stack (and any `unify_chunks` user) of *zero-size* operands chunked differently,
+  because `rechunk` returns zero-size arrays unchanged — `C12_stack_block_shape_partial` (hypothesis: no
+  zero-length axis) and `C12_stack_zero_size_fails` (witness).
   dtype rules are not part of the Lean model (compared differentially by the harness).
 -/
 import CubedModel.Proofs.ShapeCalc
@@ -141,9 +144,15 @@ theorem C12_block_shape_ok_partial_reduce (p : PartialReduce) (hk : p.kind = .ke
     (hs : ∀ i k, p.split.lookup i = some k → 0 < k)
     (coords s : List Nat) (he : extents (prChunkss p) coords = some s) : prBlock p coords = some s := by
   apply prBlock_ok p _ coords s he
-  intro j c k b _ hk' _
-  refine ⟨hs j k hk', ?_⟩
-  simp [prAxisLen, hk, hc]
+  intro j c k b v _ hk' hv
+  have hpos := hs j k hk'
+  simp only [prAxisChunks, hk', hc, List.lookup_nil] at hv
+  rw [List.getElem?_replicate] at hv
+  split at hv
+  · next hb =>
+    simp only [Option.some.injEq] at hv
+    exact ⟨(lt_ceilDiv_iff b c.length k hpos).mp hb, by simp [prAxisLen, hk, hv]⟩
+  · simp at hv
 
 example : prChunkss { x := [[4, 4, 1], [3, 3, 3, 1]], split := [(1, 2)], combine := [] } = [[4, 4, 1], [1, 1]]
     ∧ prBlock { x := [[4, 4, 1], [3, 3, 3, 1]], split := [(1, 2)], combine := [] } [2, 1] = some [1, 1] := by decide
@@ -154,23 +163,35 @@ example : ∀ i k, ([(1, 2)] : List (Nat × Nat)).lookup i = some k → 0 < k :=
   · have : (i == 1) = false := by simpa using hi
     simp [List.lookup, this] at h
 
-/-- the scan level (`reduce = identity`, `combine_sizes = split`): every group must be full, which holds when
-the split size divides the number of blocks (this is what the `assert` in `scan` enforces while building). -/
-theorem C12_block_shape_ok_scan_level (p : PartialReduce) (hk : p.kind = .concat) (hc : p.combine = p.split)
-    (hs : ∀ j c k, p.x[j]? = some c → p.split.lookup j = some k → 0 < k ∧ k ∣ c.length)
+/-- the scan level (`reduce = identity`: the block keeps one entry per input block of its group) with the
+explicit sizes the repaired `scan` passes, `(k,) * (nb // k) + (nb % k,)` = the regular grid of chunk `k` over
+`nb`: every group — including a short last one — is declared with its real size. -/
+theorem C12_block_shape_ok_scan_level (p : PartialReduce) (hk : p.kind = .concat)
+    (hs : ∀ j c k, p.x[j]? = some c → p.split.lookup j = some k →
+      0 < k ∧ 0 < c.length ∧ p.combine.lookup j = some (.sizes (regGrid k c.length)))
     (coords s : List Nat) (he : extents (prChunkss p) coords = some s) : prBlock p coords = some s := by
   apply prBlock_ok p _ coords s he
-  intro j c k b hj hk' hb
-  have ⟨hpos, hdvd⟩ := hs j c k hj hk'
-  refine ⟨hpos, ?_⟩
-  simp only [prAxisLen, hk, hc, hk', Option.getD_some]
-  exact concat_group_full k c.length b hpos hdvd hb
+  intro j c k b v hj hk' hv
+  obtain ⟨hpos, hlen, hcomb⟩ := hs j c k hj hk'
+  simp only [prAxisChunks, hk', hcomb] at hv
+  have hb := getElem?_lt_length _ _ _ hv
+  rw [regGrid_length k c.length hpos hlen] at hb
+  rw [regGrid_get k c.length b hpos hlen hb] at hv
+  simp only [Option.some.injEq] at hv
+  exact ⟨(lt_ceilDiv_iff b c.length k hpos).mp hb, by simp [prAxisLen, hk, hv]⟩
 
-example : prBlock { x := [[1, 1, 1, 1]], split := [(0, 2)], combine := [(0, 2)], kind := .concat } [1] = some [2] := by decide
-example : (2 : Nat) ∣ ([1, 1, 1, 1] : List Nat).length := ⟨2, rfl⟩
-/-- … and a group that is not full would be written into a longer region (7 blocks, split 5) -/
-example : extents (prChunkss { x := [[1, 1, 1, 1, 1, 1, 1]], split := [(0, 5)], combine := [(0, 5)], kind := .concat }) [1] = some [5]
-    ∧ prBlock { x := [[1, 1, 1, 1, 1, 1, 1]], split := [(0, 5)], combine := [(0, 5)], kind := .concat } [1] = some [2] := by decide
+/-- 7 blocks, groups of 5: declared (5, 2), blocks 5 and 2 -/
+example : prChunkss { x := [[1, 1, 1, 1, 1, 1, 1]], split := [(0, 5)], combine := [(0, .sizes (regGrid 5 7))], kind := .concat } = [[5, 2]]
+    ∧ prBlock { x := [[1, 1, 1, 1, 1, 1, 1]], split := [(0, 5)], combine := [(0, .sizes (regGrid 5 7))], kind := .concat } [1] = some [2] := by decide
+
+/-- the OLD variant of the scan level (`combine_sizes = {axis: k}`: every group declared with `k` entries) wrote
+a short last group into a longer region — 7 blocks, groups of 5: block of 2 entries, region of 5 (the `assert`
+in `scan` turned this into a build-time failure). -/
+theorem C12_scan_level_old_variant_fails :
+    ¬ ∀ (p : PartialReduce), p.kind = .concat → ∀ coords s, extents (prChunkss p) coords = some s → prBlock p coords = some s := by
+  intro h
+  have := h { x := [[1, 1, 1, 1, 1, 1, 1]], split := [(0, 5)], combine := [(0, .const 5)], kind := .concat } rfl [1] [5] (by decide)
+  revert this; decide
 
 /-- `tree_reduce`: after `d` rounds with `k^d ≥ nb` a reduced axis has one block (so its declared length
 is 1, NumPy's keepdims length). -/
@@ -223,21 +244,36 @@ theorem C12_concat_pieces_cover (lens : List Nat) (start stop : Nat) (h1 : start
 
 example : arraySlices [9, 2, 0, 5] 0 0 8 12 = [(0, 8, 9), (1, 0, 2), (3, 0, 1)] := by decide
 
-/-- clause "every block written by `stack` matches its region" -/
+/-- "every block written by the `stack` op over operands `args` matches its region" -/
 def StackBlockShapeOK (args : List Chunks) (axis : Nat) : Prop :=
   ∀ d, stackChunkss args axis = some d → ∀ coords s, extents d coords = some s → stackBlock args axis coords = some s
 
-/-- … holds when all operands have the same chunks … -/
-theorem C12_stack_block_shape_partial (args : List Chunks) (axis : Nat) (a : Chunks) (hargs : ∀ x ∈ args, x = a) :
-    StackBlockShapeOK args axis :=
-  fun d hd coords s he => stackBlock_ok args axis a hargs d hd coords s he
+/-- clause for `stack` as a whole (repaired code: operands are unified by `stackUnify` first) -/
+def StackOK (args : List Chunks) (axis : Nat) : Prop :=
+  ∀ u, stackUnify args = some u → StackBlockShapeOK u axis
 
-example : StackBlockShapeOK [[[2, 1]], [[2, 1]]] 0 := C12_stack_block_shape_partial _ 0 [[2, 1]] (by decide)
-example : stackChunkss [[[2, 1]], [[2, 1]]] 0 = some [[1, 1], [2, 1]] := by decide
+/-- … holds for every accepted input without a zero-length axis (the first operand's chunks being regular
+grids, as every cubed array's are): after unification all operands have the first one's chunks … -/
+theorem C12_stack_block_shape_partial (a : Chunks) (rest : List Chunks) (axis : Nat)
+    (hcan : ∀ c ∈ a, Canon c) (hnz : (shapeOf a).any (· == 0) = false) : StackOK (a :: rest) axis :=
+  fun u hu d hd coords s he =>
+    stackBlock_ok u axis a (stackUnify_all_eq (a :: rest) a rest rfl hcan hnz u hu) d hd coords s he
 
-/-- … and fails in general (the code takes the chunks of the first operand only): stacking an array chunked
-`(2,)` and one chunked `(1,1)` writes a `1×1` block into a `1×2` region. -/
-theorem C12_stack_full_fails : ¬ ∀ args axis, StackBlockShapeOK args axis := by
+example : stackUnify [[[2]], [[1, 1]]] = some [[[2]], [[2]]] := by decide
+example : (shapeOf [[2]]).any (· == 0) = false ∧ Canon [2] := ⟨by decide, 2, 2, by decide, by decide⟩
+
+/-- … and still fails for zero-size operands chunked differently, because `rechunk` returns a zero-size array
+unchanged: shape (2, 0), first operand chunked (1, 1) rows, second (2,): a (1, 2, 0) block goes into a
+(1, 1, 0) region (no elements, so no data is affected). -/
+theorem C12_stack_zero_size_fails : ¬ ∀ args axis, StackOK args axis := by
+  intro h
+  have := h [[[1, 1], [0]], [[2], [0]]] 0 [[[1, 1], [0]], [[2], [0]]] (by decide)
+    [[1, 1], [1, 1], [0]] (by decide) [1, 0, 0] [1, 1, 0] (by decide)
+  revert this; decide
+
+/-- the OLD variant (no unification, the op is built on the operands as given) failed for any operands chunked
+differently: `(2,)` and `(1,1)` — a `1×1` block written into a `1×2` region (silently broadcast). -/
+theorem C12_stack_old_variant_fails : ¬ ∀ args axis, StackBlockShapeOK args axis := by
   intro h
   have := h [[[2]], [[1, 1]]] 0 [[1, 1], [2]] (by decide) [1, 0] [1, 2] (by decide)
   revert this; decide
@@ -316,24 +352,23 @@ example : sliceLen 1 12 3 = 4 ∧ 1 + 3 * 3 < 12 ∧ ¬ (1 + 4 * 3 < 12) := by d
 
 /-! ### tall-and-skinny QR -/
 
-/-- clause "every block written by the first step of `qr` matches its region" -/
-def QrBlockShapeOK (a : Chunks) : Prop :=
-  ∀ q r, qr1Chunkss a = some (q, r) → ∀ coords sq sr,
-    extents q coords = some sq → extents r coords = some sr → qr1Block a coords = some (sq, sr)
-
-/-- … holds when every row chunk has at least as many rows as there are columns … -/
-theorem C12_qr_block_shape_partial (rows : List Nat) (n : Nat) (hrows : ∀ m ∈ rows, n ≤ m) :
-    QrBlockShapeOK [rows, [n]] := by
-  intro q r hqr coords sq sr hq hr
-  simp only [qr1Chunkss, maxOf_singleton, Option.some.injEq, Prod.mk.injEq] at hqr
-  obtain ⟨rfl, rfl⟩ := hqr
+/-- every block written by the first step of `qr` matches its region — for every accepted input (the repaired
+`_qr_first_step` raises ValueError when a row chunk has fewer rows than there are columns). -/
+theorem C12_block_shape_ok_qr (a q r : Chunks) (hqr : qr1Chunkss a = some (q, r)) (coords sq sr : List Nat)
+    (hq : extents q coords = some sq) (hr : extents r coords = some sr) : qr1Block a coords = some (sq, sr) := by
+  obtain ⟨rows, n, rfl, hrows, rfl, rfl⟩ := qr1Chunkss_eq a q r hqr
   exact qr1Block_ok rows n hrows coords sq sr hq hr
 
-example : QrBlockShapeOK [[4, 4], [4]] := C12_qr_block_shape_partial [4, 4] 4 (by decide)
+example : qr1Chunkss [[4, 4, 2], [2]] = some ([[4, 4, 2], [2]], [[2, 2, 2], [2]])
+    ∧ qr1Block [[4, 4, 2], [2]] [2, 0] = some ([2, 2], [2, 2]) := by decide
+/-- 9×4 with 4-row chunks is now rejected -/
+example : qr1Chunkss [[4, 4, 1], [4]] = none := by decide
 
-/-- … and fails in general: 9×4 with 4-row chunks — the last R-block is 1×4 but declared 4×4, the last Q-block
-1×1 but declared 1×4 (zarr broadcasts both silently). -/
-theorem C12_qr_full_fails : ¬ ∀ a, QrBlockShapeOK a := by
+/-- the OLD variant (no check) failed: 9×4 with 4-row chunks — the last R-block is 1×4 but declared 4×4, the last
+Q-block 1×1 but declared 1×4 (zarr broadcast both silently). -/
+theorem C12_qr_old_variant_fails :
+    ¬ ∀ a q r, qr1ChunkssOld a = some (q, r) → ∀ coords sq sr,
+      extents q coords = some sq → extents r coords = some sr → qr1Block a coords = some (sq, sr) := by
   intro h
   have := h [[4, 4, 1], [4]] [[4, 4, 1], [4]] [[4, 4, 4], [4]] (by decide) [2, 0] [1, 4] [4, 4] (by decide) (by decide)
   revert this; decide
